@@ -48,6 +48,12 @@ def mmod : R MMod := do
   let mv ← bool; let pv ← bool; let iv ← bool
   pure ⟨⟨il, ic, iq, inn⟩, ⟨ml, mc, mq, 0⟩, prows, dcols, irows, ysize, rr, mv, pv, iv⟩
 
+/-- `M<S2>_<k>_<w>` / `T<S2>_<k>_<w>` -/
+def histMoveArgs (t : String) : Option (Nat × Nat × Nat) :=
+  match ((String.ofList (t.toList.drop 1)).splitOn "_").map String.toNat? with
+  | [some a, some b, some c] => some (a, b, c)
+  | _ => none
+
 def histOp (t : String) : Option HOp :=
   let k := t.toList.headD ' '
   let a := (String.ofList (t.toList.drop 1)).toNat?.getD 0
@@ -58,6 +64,8 @@ def histOp (t : String) : Option HOp :=
   else if k = 'c' then some .clear
   else if k = 'g' then some .get
   else if k = 'm' then some (if a = 0 then .moveKeepNew else .moveKeepOld)
+  else if k = 'M' then (histMoveArgs t).map fun (x, y, z) => .moveAssignFrom x y z
+  else if k = 'T' then (histMoveArgs t).map fun (x, y, z) => .moveAssignInto x y z
   else none
 
 def handleUkfc : Option (R String) := some do
@@ -169,6 +177,48 @@ def handleR (op : String) : Option (R String) :=
       match raw.mapM (fun (p : Nat × Bool) => (EMethod.ofNat? p.1).map (fun m => (m, p.2))) with
       | none => failure
       | some steps => pure (fmt (decide (1 ≤ N)) (eeSeqCase ls cs N steps))
+  | "b_handover" => some do
+      -- the receiving object behaves as the configured source B (fresh call-to-call members): the case of B's configuration
+      let cls ← nat; let _kind ← nat; let _A1 ← nat; let _A2 ← nat; let B1 ← nat; let B2 ← nat; let N ← nat; done
+      let lin (n : Nat) : Layout := ⟨n, 0, false, 0⟩
+      let meas (sr m : Nat) : MMod := ⟨⟨sr, 0, false, m⟩, ⟨m, 0, false, 0⟩, m, 0, m, m, m, true, true, true⟩
+      match cls with
+      | 0 => pure (fmt (decide (kfpValid (lin B1) N (lin B1) N B1 .none false false)) (kfpCase (lin B1) N (lin B1) N B1 .none false false))
+      | 1 => pure (fmt (decide (ukfpValid true (lin B1) N B1 B1 (lin B1) 0)) (ukfpCase true (lin B1) N B1 B1 (lin B1) 0 false))
+      | 2 => pure (fmt (decide (gpfpValid (lin B1) N (lin B1) N B1)) (gpfpCase (lin B1) N (lin B1) N B1))
+      | 3 => match Dim.ofNat? B1 with
+        | none => failure
+        | some d => pure (fmt true (drawCase d (lin d.n) N (lin d.n) N false))
+      | 4 => pure (fmt true (bootCase (lin B1) N (meas B1 B2)))
+      | 5 => match Dim.ofNat? B1 with
+        | none => failure
+        | some d => pure (fmt (decide (gpfcValid N N B2 B2)) (gpfcCase d N N B2 B2 true))
+      | 6 => pure (fmt (decide (rwpValid N B2 10 (lin 4) N)) (rwpCase N B2 10 (lin 4) B1 1 N (weightOracle 2)))
+      | 7 => pure (fmt (decide (linpropValid B1 B1 N B1 N)) (linpropCase B1 B1 N B1 N false false false))
+      | 8 => match EMethod.ofNat? N with
+        | none => failure
+        | some em =>
+          let a : EEArgs := ⟨⟨B1 + B2, 4⟩, 4, 4, 4, ⟨4, 4⟩⟩
+          let c : Case := do
+            match (← eeCase B1 B2 em true a 7 0) with
+            | some toks => pure (some (toks.drop 3))
+            | none => pure none
+          pure (fmt true c)
+      | 9 => pure (fmt (decide (ukfValid true (lin B1) N (lin B1) N (meas B1 B2))) (do
+          match (← ukfCase true (lin B1) N (lin B1) N (meas B1 B2)) with
+          | some toks => pure (some (["0", "0"] ++ toks)) | none => pure none))
+      | 10 => pure (fmt (decide (sukfValid (lin B1) N (lin B1) N (meas B1 B2) B2 false)) (do
+          match (← sukfCase (lin B1) N (lin B1) N (meas B1 B2) B2 false) with
+          | some toks => pure (some (["0", "0"] ++ toks)) | none => pure none))
+      | 11 => pure (fmt (decide (kfValid (lin B1) N (lin B1) N B2 B1 B2)) (do
+          match (← kfCase (lin B1) N (lin B1) N B2 B1 B2 true) with
+          | some toks => pure (some (["0", "0"] ++ toks)) | none => pure none))
+      | 12 => pure (fmt true (psaddCase N ⟨B1, B2, false, 0⟩ 1 ⟨B1, B2, false, 0⟩))
+      | 13 => pure (fmt (decide (1 ≤ N)) (do
+          match (← gmaugCase N ⟨B1, B2, false, 0⟩ ⟨1, 1⟩ ⟨0, 0⟩) with
+          | some toks => pure (some ((toks.take 1) ++ ((toks.drop 2).take 9))) | none => pure none))
+      | 14 => pure (fmt (decide (rsValid N (lin B1) N (lin B1) N)) (rsCase N (lin B1) N (lin B1) N (weightOracle 0)))
+      | _ => failure
   | "b_linprop" => some do
       let fn ← nat; let sr ← nat; let num ← nat; let pr ← nat; let pc ← nat; let sS ← bool; let hE ← bool; let sE ← bool; done
       if fn = 0 then pure (fmt false (pure none))
